@@ -30,10 +30,12 @@ IsNet(a) == Len(a) > 4 /\ SubSeq(a, 1, 4) = "net:"
 InNet(dst, a) == LET pre == SubSeq(a, 5, Len(a)) IN Len(dst) >= Len(pre) /\ SubSeq(dst, 1, Len(pre)) = pre
 Accepts(nic, dst) == <<nic, dst>> \in addrs \/ nic \in promisc
                      \/ \E a \in addrs : a[1] = nic /\ IsNet(a[2]) /\ InNet(dst, a[2])
-Cands(typ, v, dport) == {s \in Sids : socks[s].typ = typ /\ socks[s].st \in Live /\ socks[s].lport = dport /\ v \in socks[s].nets}
+\* (a socket bound to an interface - Bind or Connect with a NIC id - matches only what arrived on that interface: rnic; 0 = any)
+Cands(typ, nic, v, dport) == {s \in Sids : socks[s].typ = typ /\ socks[s].st \in Live /\ socks[s].lport = dport /\ v \in socks[s].nets
+                                             /\ socks[s].rnic \in {0, nic}}
 Target(typ, nic, v, src, sport, dst, dport) ==
   IF ~Accepts(nic, dst) THEN NoSock
-  ELSE LET c == Cands(typ, v, dport)
+  ELSE LET c == Cands(typ, nic, v, dport)
            exact == {s \in c : socks[s].st = "conn" /\ socks[s].laddr = dst /\ socks[s].raddr = src /\ socks[s].rport = sport}
            spec  == {s \in c : socks[s].st # "conn" /\ socks[s].laddr = dst}
            wild  == {s \in c : socks[s].st # "conn" /\ socks[s].laddr = AnyA}
@@ -55,7 +57,7 @@ Reset == /\ IsEvent("reset")
 
 NewSock == /\ IsEvent("op") /\ Ev.op \in {"udp", "tcp"} /\ expect = NoExp
            /\ socks' = (Ev.s :> [typ |-> Ev.op, v |-> Ev.v, st |-> "init", laddr |-> AnyA, lport |-> 0, raddr |-> AnyA, rport |-> 0,
-                                 nets |-> {Ev.v}, rcvclosed |-> FALSE, v6only |-> FALSE,
+                                 nets |-> {Ev.v}, rcvclosed |-> FALSE, v6only |-> FALSE, bnic |-> 0, rnic |-> 0,
                                  holds |-> FALSE, haddr |-> AnyA, hport |-> 0, hnets |-> {},
                                  tcpst |-> "", syn |-> <<-1, -1>>, peers |-> {}, kids |-> {}]) @@ socks
            /\ q' = (Ev.s :> <<>>) @@ q
@@ -71,6 +73,9 @@ Bind == /\ IsEvent("op") /\ Ev.op = "bind" /\ expect = NoExp
                     nets == IF mapped THEN {4} ELSE NetsOf(socks[Ev.s], Ev.addr) IN
                 socks' = [socks EXCEPT ![Ev.s].st = "bound", ![Ev.s].laddr = la, ![Ev.s].lport = Ev.lport,
                                        ![Ev.s].nets = nets,
+                                       \* (only UDP binds to an interface; a TCP Bind ignores the interface id it is given: observation in DESIGN 8.9)
+                                       ![Ev.s].bnic = (IF socks[Ev.s].typ = "udp" THEN Fld(Ev, "nic", 0) ELSE 0),
+                                       ![Ev.s].rnic = (IF socks[Ev.s].typ = "udp" THEN Fld(Ev, "nic", 0) ELSE 0),
                                        ![Ev.s].holds = TRUE, ![Ev.s].haddr = la, ![Ev.s].hport = Ev.lport,
                                        ![Ev.s].hnets = nets]
            ELSE UNCHANGED socks
@@ -82,6 +87,8 @@ Connect == /\ IsEvent("op") /\ Ev.op = "connect" /\ expect = NoExp /\ socks[Ev.s
                                           \* (connecting a v6 socket to a v4-mapped address makes it an IPv4 socket: eaddr)
                                           ![Ev.s].raddr = Fld(Ev, "eaddr", Ev.addr), ![Ev.s].rport = Ev.port,
                                           ![Ev.s].nets = IF socks[Ev.s].v = 4 \/ "eaddr" \in DOMAIN Ev THEN {4} ELSE {6},
+                                          \* (the interface named at Bind wins over the one named at Connect)
+                                          ![Ev.s].rnic = IF socks[Ev.s].bnic # 0 THEN socks[Ev.s].bnic ELSE Fld(Ev, "nic", 0),
                                           ![Ev.s].holds = TRUE,
                                           ![Ev.s].haddr = IF socks[Ev.s].holds THEN socks[Ev.s].haddr ELSE Ev.laddr,
                                           ![Ev.s].hport = IF socks[Ev.s].holds THEN socks[Ev.s].hport ELSE Ev.lport,
@@ -289,6 +296,7 @@ TcpConnect == /\ IsEvent("op") /\ Ev.op = "connect" /\ expect = NoExp /\ socks[E
                  THEN socks' = [socks EXCEPT ![Ev.s].st = "conn", ![Ev.s].laddr = Ev.laddr, ![Ev.s].lport = Ev.lport,
                                              ![Ev.s].raddr = Ev.addr, ![Ev.s].rport = Ev.port,
                                              ![Ev.s].nets = IF socks[Ev.s].v = 4 THEN {4} ELSE {6},
+                                             ![Ev.s].rnic = IF socks[Ev.s].bnic # 0 THEN socks[Ev.s].bnic ELSE Fld(Ev, "nic", 0),
                                              ![Ev.s].holds = FALSE, ![Ev.s].tcpst = "synsent"]
                  ELSE UNCHANGED socks
               /\ UNCHANGED <<addrs, promisc, q, pemit, expect>>
